@@ -301,7 +301,7 @@ Theorem c05_spec_post_no_dot : forall k s,
   guard_dot k = true -> spec_neg_zero_fix k = false -> ss_has 46 s = false -> spec_post k s = s.
 Proof. exact spec_post_no_dot. Qed.
 
-(** the pinned tree before repair 48ba917 (no exponent ss_guard): "1.5e+20" -> "1.5e+2", "0.0e+00" -> "0.0e+" *)
+(** the pinned tree before repair ab396c8 (no exponent ss_guard): "1.5e+20" -> "1.5e+2", "0.0e+00" -> "0.0e+" *)
 Theorem c05_spec_post_unguarded_refuted :
   spec_cfg_ok cfg_unguarded = false /\
   spec_post cfg_unguarded [49; 46; 53; 101; 43; 50; 48]%N = [49; 46; 53; 101; 43; 50]%N /\
